@@ -182,13 +182,19 @@ def batch_case(case):
     from orquestra.quantum.circuits import split_into_batches
     Lc, b = case["len"], case["size"]
     k = 0
-    for ns in itertools.product((1, 5, 9), repeat=Lc):
-        circs = ["c%d" % i for i in range(Lc)]
+    # what a "circuit" is to this function is the caller's business (the docstring allows any circuit type): names, and objects that happen to be FALSY (an empty gate tuple, an SDK
+    # circuit whose __len__ is 0, the number 0, None) - at every position, so also exactly at a batch boundary
+    class Empty:
+        def __len__(self):
+            return 0
+    falsy = [(), 0, "", Empty(), None, [], 0.0]
+    for ns, kind in [(ns_, "names") for ns_ in itertools.product((1, 5, 9), repeat=Lc)] + [(tuple([5] * Lc), "falsy"), (tuple([1, 9] * Lc)[:Lc], "mixed")]:
+        circs = ["c%d" % i for i in range(Lc)] if kind == "names" else [falsy[i % len(falsy)] for i in range(Lc)] if kind == "falsy" else [("c%d" % i if i % 2 else falsy[i % len(falsy)]) for i in range(Lc)]
         out = [(list(c), n) for c, n in split_into_batches(circs, list(ns), b)]
         k += 1
         flat = [c for cs, _ in out for c in cs]
         bad = None
-        if flat != circs:
+        if len(flat) != len(circs) or any(x is not y for x, y in zip(flat, circs)):
             bad = "batches do not cover every circuit exactly once in order"
         elif any(len(cs) > b or len(cs) == 0 for cs, _ in out):
             bad = "a batch is empty or larger than the maximum"
